@@ -326,8 +326,8 @@ type verifC02Fixture struct {
 	files    map[backend.Handle][]byte
 	blobs    map[string]restic.BlobHandle // symbolic name -> handle
 	plain    map[restic.ID][]byte
-	packD1   restic.ID // data pack holding a, b, c
-	packT1   restic.ID // tree pack holding t1
+	packD1   restic.ID            // data pack holding a, b, c
+	packT1   restic.ID            // tree pack holding t1
 	ids      map[string]restic.ID // "index", "snapshot", "lock", "key" -> a file of that type
 	honest   *Repository
 	cacheDir string
